@@ -1,4 +1,5 @@
 import LettreVerif.Proofs.PoolLts
+import LettreVerif.Proofs.TransportInv
 /-!
 # C08 — Pool reuses only healthy connections and keeps its idle set within bounds
 
@@ -49,6 +50,39 @@ theorem failed_probe_closes (s : St) (i c : Nat) (rest : List (Nat × Bool)) (hc
 /-- A connection on which a command failed (`abort` ran) is closed, and `recycle` never parks a
     broken connection: `finishSend` does not even take the lock for it. -/
 theorem failed_connection_closed (k : Conn) : (abortConn k).closed = true := (abortConn_closed k).1
+
+/-- **The sequential transport, every history** (`Model/Transport.lean`, the model the `pool` cases compare with both
+    real transports). After any sequence of `send_raw` calls on a transport that started without connections, whatever
+    the peers did on any connection — refused, closed, went silent, answered the NOOP probe or not —: the idle list names
+    each parked connection once, and every parked connection exists, is not marked broken and has not been shut. -/
+theorem parked_connections_are_healthy (p0 : Transport.Pool) (h0 : p0.conns = [] ∧ p0.idle = [])
+    (sends : List (Option Bytes × List Bytes × Bytes)) :
+    let p := sends.foldl (fun p s => (p.sendRaw s.1 s.2.1 s.2.2).1) p0
+    p.idle.Nodup ∧ ∀ i ∈ p.idle, ∃ c, p.conns[i]? = some c ∧ c.panic = false ∧ c.shut = false := by
+  have hinv : ∀ (l : List (Option Bytes × List Bytes × Bytes)) (p : Transport.Pool), Transport.PoolInv p →
+      Transport.PoolInv (l.foldl (fun p s => (p.sendRaw s.1 s.2.1 s.2.2).1) p) := by
+    intro l
+    induction l with
+    | nil => intro p h; exact h
+    | cons s l ih => intro p h; exact ih _ (Transport.sendRaw_inv p s.1 s.2.1 s.2.2 h)
+  have h1 : Transport.PoolInv p0 :=
+    { coh := fun c hc => by rw [h0.1] at hc; simp at hc
+      nodup := by rw [h0.2]; exact List.nodup_nil
+      healthy := fun i hi => by rw [h0.2] at hi; simp at hi }
+  have h2 := hinv sends p0 h1
+  exact ⟨h2.nodup, fun i hi => Transport.parked_healthy _ h2 i hi⟩
+
+/-- non-vacuity: two sends; the first connection is refused at RCPT (closed, not parked), the second is parked -/
+example :
+    let bad : List Client.Step := [⟨str "220 hi\r\n", false⟩, ⟨str "250 srv\r\n", false⟩, ⟨str "250 ok\r\n", false⟩,
+      ⟨str "550 no\r\n", false⟩, ⟨str "221 bye\r\n", false⟩]
+    let good : List Client.Step := [⟨str "220 hi\r\n", false⟩, ⟨str "250 srv\r\n", false⟩, ⟨str "250 ok\r\n", false⟩,
+      ⟨str "250 ok\r\n", false⟩, ⟨str "354 go\r\n", false⟩, ⟨str "250 queued\r\n", false⟩]
+    let p0 : Transport.Pool := { conns := [], idle := [], scripts := [bad, good], maxSize := 2, hello := str "c" }
+    let p := [(none, [str "x@y.z"], str "m"), (none, [str "x@y.z"], str "m")].foldl
+      (fun (p : Transport.Pool) (s : Option Bytes × List Bytes × Bytes) => (p.sendRaw s.1 s.2.1 s.2.2).1) p0
+    p.idle = [1] ∧ p.conns.length = 2 := by
+  decide
 
 example : (run (init false 1 3 1 1 []) [.maintScan, .maintPush, .connectionLock 0, .recycleLock 0]).isSome = true := by
   decide
